@@ -109,7 +109,7 @@ claim("C15", "exploration", "client",
 
 claim("C12", "fault_enumeration", "shutdown",
       "runtime monitor with crash-point enumeration: each scenario (producer, sync producer, partition consumer, consumer, consumer group, offset manager, client in a given state) is re-run once per k, and at the k-th observable event (hook event or request arriving at the simulated cluster) the documented closing sequence is started from a fresh goroutine; completion judged by quiescence and by a logical-step bound, channels drained and checked for closure, panics collected through sarama.PanicHandler and child deaths, second Close tried where the statement promises it harmless, race detector",
-      "34 scenarios (idle, mid-request, mid-retry, back-off, unreachable cluster, a return channel switched off, an application that stops reading when it calls Close (which then reads itself), slow reader, reader that stops reading, redispatch, fetches dying in flight, a failing re-dispatch with partitions sharing the broker, out-of-range, mid-join, mid-sync, rebalance back-off, coordinator unavailable / lost after the first join, heartbeats dying while the coordinator stays cached, a LeaveGroup the coordinator refuses, offset fetch failing during session setup, two members, a member without claims, slow / failing commits, manual commits racing with Close, background refresher, shared client) x every 4th (quick) or every (thorough) crash point up to the scenario's event count, plus close after the workload ended.",
+      "35 scenarios (idle, mid-request, mid-retry, back-off, unreachable cluster, a return channel switched off, an application that stops reading when it calls Close (which then reads itself), slow reader, reader that stops reading, redispatch, fetches dying in flight, a failing re-dispatch with partitions sharing the broker, out-of-range, mid-join, mid-sync, rebalance back-off, coordinator unavailable / lost after the first join, heartbeats dying while the coordinator stays cached, a LeaveGroup the coordinator refuses, offset fetch failing during session setup, two members, a member without claims, slow / failing commits, manual commits racing with Close, background refresher, shared client, a client closed while other goroutines are inside its calls) x every 4th (quick) or every (thorough) crash point up to the scenario's event count, plus close after the workload ended.",
       "Held on the executions of the run. The application services output channels as documented (AsyncClose: keep draining; PartitionConsumer.Close: no reading required). Goroutine leaks are not judged. Close blocking under an unfired count/byte flush trigger is a C01 known finding and not re-generated here.",
       "DESIGN.md §7 C12")
 
